@@ -486,6 +486,10 @@ func (fv *FV) wfAxioms(key, c, alloc string) {
 	if fv.compKind[key] == "emb" {
 		// an embedded library object always exists
 		fv.axioms = append(fv.axioms, fmt.Sprintf("(forall ((r Int)) (! (> (select %s r) 0) :pattern ((select %s r))))", c, c))
+		// the embedded object lives as long as its owner and belongs to exactly one owner
+		own := "owner$" + cleanName(key)
+		fv.declare(own, fmt.Sprintf("(declare-fun %s (Int) Int)", own))
+		fv.axioms = append(fv.axioms, fmt.Sprintf("(forall ((r Int)) (! (=> (select %s r) (and (select %s (select %s r)) (= (%s (select %s r)) r))) :pattern ((select %s r))))", alloc, alloc, c, own, c, c))
 	}
 	if fv.compKind[key] == "refelems" {
 		fv.axioms = append(fv.axioms, fmt.Sprintf("(forall ((r Int) (x Int)) (! (=> (select %s r) (select %s (select (select %s r) x))) :pattern ((select (select %s r) x))))", alloc, alloc, c, c))
@@ -790,5 +794,17 @@ func isOpaqueStruct(t types.Type) bool {
 	if !ok || n.Obj().Pkg() == nil {
 		return false
 	}
-	return opaqueStructs[n.Obj().Pkg().Path()+"."+n.Obj().Name()]
+	k := n.Obj().Pkg().Path() + "." + n.Obj().Name()
+	return opaqueStructs[k] || userByRef[k]
+}
+
+// userByRef: struct types of the packages under contract declared `byref` in their contract file.
+var userByRef = map[string]bool{}
+
+func isUserByRef(t types.Type) bool {
+	n, ok := types.Unalias(t).(*types.Named)
+	if !ok || n.Obj().Pkg() == nil {
+		return false
+	}
+	return userByRef[n.Obj().Pkg().Path()+"."+n.Obj().Name()]
 }
